@@ -71,25 +71,53 @@ LEVEL_TEXT = ("Lean theorems over the model of the five crowsetta modules hold f
               "and the segment export (seconds and the arguments of int()) for every geometry type x switch combination by "
               "path-exhaustive symbolic tracing proved equal to the model for all inputs, both cascades by exhaustive "
               "enumeration of the abstracted option space incl. falsy values, numeric behaviour on dyadic grids through real "
-              "crowsetta objects (floats, ints, numpy scalars) and a real WAV file for the recording=None path.")
+              "crowsetta objects (floats, ints, numpy scalars) and a real WAV file for the recording=None path.  Histories: the "
+              "store semantics of consecutive imports (every tag the cascade builds is a fresh mutable object, callers edit "
+              "returned tags in place) is proved equal to the value semantics (calls are pure functions of their own arguments, "
+              "edits are local to the edited result), and is observed event by event on the real objects; every converter is "
+              "also run through sequences of calls on shared, reused and changed argument objects with poisoned results, each "
+              "step judged by the base operation's model.  Positional calls: the positional parameter order of the eleven "
+              "public converters is a Lean table re-extracted from the signatures on every run; binding any split between "
+              "positional and keyword passing is proved to be the keyword call, and every split is exercised.")
 LEVEL_NOTE = ("Trusted: Lean kernel, symbolic tracer and its stubs (data constructors, crowsetta.Segment, compute_bounds, label "
               "functions, the int()/math.floor hook), shapely bounds, pydantic parsing, crowsetta's classes (BBox validators are "
               "modelled and traced), Recording.from_file (a parameter of the model; its contract path/time_expansion is "
               "evaluated on every call). Unmodelled: binary64 rounding of time/te, sample/(samplerate/te) and time*samplerate "
               "off the dyadic grid (compared round-once / with tolerance; probed by the free-mode round-trip monitor), "
               "ZeroDivisionError for a zero samplerate or expansion factor, the crowsetta != 4 constructor branch of "
-              "create_crowsetta_segment (not importable with the installed crowsetta).")
-TECHNIQUE = ("Lean 4 proof over model; defaults and symbolic-trace equality obligations regenerated from source; exhaustive "
-             "option-space and dyadic-grid correspondence; round-trip monitor on real crowsetta objects")
+              "create_crowsetta_segment (not importable with the installed crowsetta). Histories are finite samples of call "
+              "sequences (the theorem is about the model's store; the code's freshness of returned objects is observed, not "
+              "proved); each history starts from re-initialised converter modules so that a failing history is a self-contained "
+              "replay (confirmed in a fresh interpreter when one fails); tags returned from tag_fn / tag_mapping are the "
+              "caller's own objects and outside the store model.")
+TECHNIQUE = ("Lean 4 proof over model; defaults, positional signatures and symbolic-trace equality obligations regenerated from "
+             "source; exhaustive option-space and dyadic-grid correspondence; round-trip monitor on real crowsetta objects; "
+             "call histories on shared objects judged step by step by the model, store semantics of returned tags proved and observed")
 RULE = ("exhaustive option tables of label_to_tags / label_from_tag(s); segments, boxes, sequences and annotations on dyadic "
         "grids with power-of-two and decimal sample rates / expansion factors; all nine geometry types x cast switches; "
-        "non-trivial = the implementation returned a value (not an error); distinct = distinct (operation, input)")
+        "histories: x, a neighbour of x (same objects with another option / recording / switch, revised content under the same "
+        "uuid, the same callable with a changed table, a sibling converter on the same label), x again, with the live argument "
+        "objects reused unchanged / assigned to / edited in place / model_copy(update) shallow and deep / copy.copy + assignment, "
+        "arguments snapshotted around every call, results poisoned in place and earlier results re-read after later calls; tag "
+        "histories (import, in-place edit of a returned tag, import again) for every ordered pair of the six import routes; every "
+        "converter with every split between positional and keyword arguments; numbers as float / int / numpy float64 / float32 / "
+        "int64 / int32, recordings and annotations built by constructor / model_validate / JSON / model_copy / AOEF save+load, "
+        "coordinates as tuples, mappings as dict / reversed / OrderedDict / subclass / mappingproxy, sequences by from_segments / "
+        "from_keyword / from_dict, annotation stand-ins with __slots__ / properties / class attributes / dataclass / namedtuple, the "
+        "same object listed twice; every exporter x switch combination x 16 classes of sound event, every importer x label option "
+        "record x label; expansion factors 1 +- 2^-k and 1 +- 1e-6..1e-12, upper frequencies at Nyquist x (1 +- 1e-6..1e-12) and "
+        "+- 1 ulp, every point of eight non-dyadic time lattices, lists of 16/17/256/257/1024/1025 entries; "
+        "non-trivial = the implementation returned a value (not an error); for a history: some step did; distinct = distinct "
+        "(operation, input)")
 TRUSTED = ["shapely `bounds` inside compute_bounds", "pydantic parsing of floats and the geometry validators (modelled: mkInterval, mkBox)",
            "crowsetta.Segment / BBox / Sequence / Annotation (BBox validators modelled as mkBBox and traced symbolically)",
            "Recording.from_file / media info of a WAV file (contract: path and time_expansion as requested, evaluated per call)",
            "symbolic tracer stubs: soundevent.data constructors and crowsetta.Segment record their arguments, label functions "
            "return constants, compute_bounds returns a symbolic 4-tuple (the interval's own coordinates for a TimeInterval), "
-           "int()/math.floor of a symbolic product is recorded (Python's truncation = pyInt; floor agrees for times >= 0)"]
+           "int()/math.floor of a symbolic product is recorded (Python's truncation = pyInt; floor agrees for times >= 0)",
+           "importlib.reload of the five converter modules between histories (module state re-initialised as in a new interpreter)",
+           "soundevent.io save / load as a constructor of input objects (AOEF path; falls back to the caller-built objects if the "
+           "loaded ones differ in what the converters read)"]
 ASSUMPTIONS = ["samplerate > 0 and time_expansion > 0 (ZeroDivisionError otherwise, outside the model)",
                "binary64 arithmetic is exact on the dyadic grids used; one correctly rounded operation in round-once mode",
                "ordered-field semantics for the symbolic ties (no rounding)",
@@ -97,7 +125,13 @@ ASSUMPTIONS = ["samplerate > 0 and time_expansion > 0 (ZeroDivisionError otherwi
 NOT_COMPARED = ["error messages (only the error class)",
                 "uuids, notes, created_by, clip tags and the clip of the resulting ClipAnnotation (passed in a share of the cases so "
                 "that every branch runs; the property does not pin them)",
-                "sample indices in free mode (arbitrary floats): `int(t * samplerate)` rounds the product, the rational model cannot"]
+                "sample indices in free mode (arbitrary floats): `int(t * samplerate)` rounds the product, the rational model cannot",
+                "the identity of tags that come from `tag_fn` / `tag_mapping` (they are the caller's own objects, handed back as they "
+                "are: histories neither poison them nor demand copies)",
+                "tags of annotations rebuilt through pydantic's own dump -> validate: replaced by the harness-built tags (a "
+                "`data.Term` does not survive that path unchanged - `type_of_term` / `term_range` validate only under their aliases - "
+                "which is a matter of the data model; tags loaded through soundevent.io do compare equal and are used as they are)",
+                "which exception a positional call with too many arguments raises beyond its class (TypeError)"]
 
 NS = types.SimpleNamespace
 MAXF = 5_000_000
@@ -600,8 +634,13 @@ def _impl_import_annotation_load(inp):
     kw = {}
     if _load_kwargs(inp) is not None:
         kw["recording_kwargs"] = _load_kwargs(inp)
+    ex = _extras(inp, clip=True)
+    before = (dict(kw.get("recording_kwargs") or {}), [len(ex.get(k) or []) for k in ("notes", "tags")])
     c = _cio().annotation_to_clip_annotation(_crow(crow), adjust_time_expansion=inp["adjust"], **kw,
-                                             **_extras(inp, clip=True), **_label_kwargs(inp.get("opts")))
+                                             **ex, **_label_kwargs(inp.get("opts")))
+    # the caller's own dict / lists are as they were (HISTORIES.md: an argument mutated by the call)
+    assert before == (dict(kw.get("recording_kwargs") or {}), [len(ex.get(k) or []) for k in ("notes", "tags")]), \
+        "annotation_to_clip_annotation changed recording_kwargs / notes / tags of its caller in place"
     return {"val": _clip_ann_j(c)}
 
 
@@ -1159,23 +1198,29 @@ class _IntArgs:
     is `pyInt` in the model; `math.floor` is accepted as well because the property pins floor(time * samplerate) and
     the two agree for the non-negative times of valid geometries (`C10_export_samples_floor`)"""
     BASE = 7_000_001
+    ALL = []          # sentinels are unique over the whole run: a (correct) cache of the code under test may hand back the
+    #                   integer it computed in an earlier trace for the very same symbolic arguments
 
     def __enter__(self):
-        self.args = []
         Sym.int_hook = self._hook
+        # symbols hash by identity while tracing, so that code which keeps what it computed in a dict keyed by its
+        # arguments can be traced (a lookup of the same symbols hits, any other one misses)
+        self._hash = Sym.__dict__.get("__hash__")
+        Sym.__hash__ = lambda s: id(s) >> 4
         return self
 
     def _hook(self, sym):
-        self.args.append(sym)
-        return self.BASE + len(self.args) - 1
+        self.ALL.append(sym)
+        return self.BASE + len(self.ALL) - 1
 
     def __exit__(self, *exc):
         Sym.int_hook = None
+        Sym.__hash__ = self._hash
         return False
 
     def arg_of(self, v):
-        if type(v) is int and self.BASE <= v < self.BASE + len(self.args):
-            return self.args[v - self.BASE]
+        if type(v) is int and self.BASE <= v < self.BASE + len(self.ALL):
+            return self.ALL[v - self.BASE]
         raise Untraceable("a sample index is not int(<time term>): %r" % (v,))
 
 
@@ -1579,6 +1624,10 @@ def gen_export_sequence(rng, n, defaults):
         d = rng.random() < 0.1
         if anns and rng.random() < 0.15:
             anns.insert(rng.randrange(len(anns) + 1), rng.choice(anns))      # the same annotation listed twice
+        if len(anns) >= 2 and rng.random() < 0.15:                            # revised content under one uuid
+            u = "00000000-0000-4000-8000-%012d" % rng.randrange(10 ** 6)
+            i, j = rng.sample(range(len(anns)), 2)
+            anns[i], anns[j] = {**anns[i], "uuid": u}, {**anns[j], "uuid": u}
         yield {"anns": anns, "sr": rng.choice(EXPORT_SR), "cast": defaults["seq_cast"] if d else rng.random() < 0.5,
                "ignore": defaults["seq_ignore"] if d else rng.random() < 0.5, "opts": _kwv(rng, rng.choice(TAGS_OPTS)), "default_switches": d,
                "share": rng.random() < 0.5, "as_tuple": rng.random() < 0.3}
@@ -1813,11 +1862,13 @@ def _hist_cases(rng, defaults):
     return cases
 
 
-def _hist_variants(x, rng):
+def _hist_variants(x, rng, defaults=None):
     """neighbours of a step: the same element / annotation / tags with other options, another recording, a flipped
-    switch; the same options with another element; the same label through a sibling converter"""
+    switch, the plain call with every switch omitted; the same options with another element; the same label through
+    a sibling converter"""
     op, b = x["op"], x["inp"]
     out = []
+    d = defaults or {}
 
     def v(op_=None, **ch):
         nb = {k: w for k, w in b.items()}
@@ -1873,6 +1924,10 @@ def _hist_variants(x, rng):
             v(cast=not b["cast"], default_cast=False, default_switches=False)
             if op == "export_bbox":
                 v(raise_time=not b["raise_time"], default_switches=False)
+                if d:
+                    v(cast=d["box_cast"], raise_time=d["box_raise_time"], default_switches=True)
+            elif d:
+                v(cast=d["seg_cast"], default_cast=True)
             v(ann={**b["ann"], "tags": rng.choice(TAG_LISTS)})
             v(ann={**gen_ann(rng, None, none_p=0.1), "tags": b["ann"]["tags"]})
             if b["ann"]["geometry"] is not None:
@@ -1881,6 +1936,8 @@ def _hist_variants(x, rng):
             v(sr=rng.choice(EXPORT_SR))
             v(cast=not b["cast"], default_switches=False)
             v(ignore=not b["ignore"], default_switches=False)
+            if d:
+                v(cast=d["seq_cast"], ignore=d["seq_ignore"], default_switches=True)
             v(anns=list(reversed(b["anns"])))
             v(anns=b["anns"] + [gen_ann(rng, rng.choice(["TimeInterval", "LineString", None]), none_p=0.2)])
             v(anns=[{**a, "tags": rng.choice(TAG_LISTS)} for a in b["anns"]])
@@ -1888,6 +1945,11 @@ def _hist_variants(x, rng):
             v(fmt=rng.choice(["bbox", "seq"]))
             v(ignore=not b["ignore"], default_switches=False)
             v(cast=not b["cast"], default_switches=False)
+            v(raise_time=not b["raise_time"], default_switches=False)
+            if d:
+                v(ignore=d["ann_ignore"], cast=d["ann_cast"], raise_time=d["box_raise_time"], default_switches=True)
+                v(ignore=d["ann_ignore"], cast=d["ann_cast"], raise_time=d["box_raise_time"], default_switches=True, fmt="bbox",
+                  anns=b["anns"] + [{"geometry": {"type": "TimeInterval", "coordinates": ["1", "2"]}, "tags": [TAG_A]}])
             v(rec={**b["rec"], "samplerate": rng.choice(EXPORT_SR)})
             v(anns=list(reversed(b["anns"])))
             v(anns=b["anns"] + [gen_ann(rng, rng.choice(["BoundingBox", "TimeInterval", "Point", None]), none_p=0.2)])
@@ -1898,7 +1960,8 @@ def _stage_histories(ctx, defaults):
     from .. import history
     rng = ctx.rng
     cases = _hist_cases(rng, defaults)
-    hs = history.sequences(rng, cases, ctx.budget(420, 3000), variants=_hist_variants, reuse_hows=c10_hist.REUSE, poison=True)
+    hs = history.sequences(rng, cases, ctx.budget(420, 3000), variants=lambda x, r: _hist_variants(x, r, defaults),
+                           reuse_hows=c10_hist.REUSE, poison=True)
     for h in hs:
         for st in h["seq"]:
             ctx.tally("history:" + st["inp"]["op"].split("_")[0] + ":" + (st.get("reuse") or "fresh") + ("+poison" if st.get("poison") else ""))
@@ -2194,8 +2257,10 @@ def enum_sizes(rng):
                                     "ignore": True, "cast": True, "raise_time": True, "opts": {"select_by_key": "k1"}, "default_switches": False}
         # many tags / many mapping entries / many empty labels
         tags = [ktag("k%d" % (i % 9), "v%d" % i) for i in range(n)]
+        rep = [ktag("k%d" % (i % 3), "v%d" % (i % 7)) for i in range(n)]          # many repeated tags: order and multiplicity are pinned
         for o in ({}, {"index": n + 1}, {"index": -n - 1}, {"index": n - 1}, {"select_by_key": "k8"}, {"value_only": True, "separator": "|"}):
             yield "label_from_tags", {"tags": tags, "opts": o}
+            yield "label_from_tags", {"tags": rep, "opts": o}
         big = [["l%d" % i, "key%d" % i] for i in range(n)]
         for lab in ("l0", "l%d" % (n - 1), "l%d" % n):
             yield "label_to_tags", {"label": lab, "opts": {"key_mapping": big, "key": "explicit"}}
@@ -2332,6 +2397,7 @@ def run(ctx):
     # (e) option x input-class products, numeric and size boundaries (HISTORIES.md sections 3 and 4)
     stage("products", _stage_products, ctx, defaults)
     stage("boundaries", _stage_boundaries, ctx)
+    stage("self-contained-replays", c10_hist.drop_not_self_contained, ctx)
     ctx.note("stage seconds: " + ", ".join(f"{k} {v}" for k, v in times.items()))
 
 
@@ -2355,6 +2421,9 @@ def search(ctx, failures):
     if ops & {"export_bbox", "export_annotation", "defaults"} or not ops & set(OPS):
         ctx.run_cases(OPS["export_bbox"], gen_export_bbox(rng, 60, defaults))
         ctx.run_cases(OPS["export_annotation"], gen_export_annotation(rng, 2000, defaults))
+    if "positional" in ops:
+        sigs = {e["fn"]: e["params"] for e in ctx.model("signatures", {})}
+        ctx.run_cases(OPS["positional"], gen_positional(rng, defaults, sigs, 12))
     if "defaults" in ops:
         ctx.run_cases(OPS["export_segment"], gen_export_segment(rng, 40, defaults))
         ctx.run_cases(OPS["export_sequence"], gen_export_sequence(rng, 2000, defaults))
